@@ -57,7 +57,7 @@ structure KP where
   t : Int
   divs : Rat
   fac : Rat
-  deriving Repr
+  deriving DecidableEq, Repr
 
 -- ------------------------------------------------------------------ key points
 
